@@ -183,6 +183,7 @@ inductive Res
   | timeout              -- the caller's TimeoutError (connection stays open)
   | badFd                -- OSError(EBADFD): read on a closed connection
   | connReset            -- ConnectionResetError: write on a closed connection
+  | peerClosed           -- BrokenPipeError("connection closed by gateway"): the stream ended, nothing awaited is queued
   | busy                 -- (harness discipline) an operation is still pending
 deriving DecidableEq, Repr
 
@@ -196,7 +197,8 @@ structure Sys where
   buf : Bytes := []                 -- received, not yet parsed
   queue : List Item := []           -- `_read_queue`
   closed : Bool := false            -- `_closed`
-  eof : Bool := false               -- reader task ended by end-of-stream (the flag is *not* set by the code)
+  eof : Bool := false               -- reader task ended by end-of-stream (`_closed` stays false; the task leaves an
+                                    -- end-of-stream marker behind what is queued)
   out : List (Nat × Bytes) := []    -- writes to the TCP stream with their time
   now : Nat := 0
   client : Client := .idle
@@ -277,6 +279,17 @@ def fire (s : Sys) (target : Nat) : Sys :=
     | some ct => if ct ≤ target then { s with now := ct }.finish .timeout else s
     | none => s
 
+/-- the end-of-stream marker: once the reader task has ended, a consumer that finds nothing it awaits in the queue
+    is not left blocked but ends with `BrokenPipeError`.  The ack wait puts the frames it skipped back (`finally`),
+    `read_diag_request` drops them (it ends by an exception). -/
+def wake (s : Sys) : Sys :=
+  if s.eof then
+    match s.client with
+    | .idle => s
+    | .ackWait _ sk _ _ => { s with queue := sk ++ s.queue }.finish .peerClosed
+    | .reading _ _ => s.finish .peerClosed
+  else s
+
 inductive Op
   | feed (chunk : Bytes)
   | write (data : Bytes) (timeout : Option Nat)
@@ -294,14 +307,14 @@ def execOp (cfg : Cfg) (yields : Wire → Bool) (s : Sys) : Op → Sys
   | .write data t =>
     if !isIdle s.client then { s with done := s.done ++ [(s.now, .busy)] }
     else if s.closed then { s with done := s.done ++ [(s.now, .connReset)] }
-    else clientRun cfg { s with out := s.out ++ [(s.now, requestBytes cfg data)],
-                                client := .ackWait data [] (s.now + cfg.ackTimeout) (t.map (s.now + ·)) }
+    else wake (clientRun cfg { s with out := s.out ++ [(s.now, requestBytes cfg data)],
+                                      client := .ackWait data [] (s.now + cfg.ackTimeout) (t.map (s.now + ·)) })
   | .read t =>
     if !isIdle s.client then { s with done := s.done ++ [(s.now, .busy)] }
     else if s.closed then { s with done := s.done ++ [(s.now, .badFd)] }
-    else clientRun cfg { s with client := .reading [] (t.map (s.now + ·)) }
+    else wake (clientRun cfg { s with client := .reading [] (t.map (s.now + ·)) })
   | .advance dt => { fire s (s.now + dt) with now := s.now + dt }
-  | .eof => { s with eof := true }
+  | .eof => wake { s with eof := true }
 
 def exec (cfg : Cfg) (yields : Wire → Bool) (s : Sys) (ops : List Op) : Sys := ops.foldl (execOp cfg yields) s
 
